@@ -121,6 +121,13 @@ def match_known(prop, v, findings):
 _WORKER_FN = None
 
 
+def _jobs_limited():
+    try:
+        return int(os.environ.get("VERIF_JOBS", "16")) < 16
+    except ValueError:
+        return False
+
+
 def _pin_worker():
     """pin this worker process (and the server threads it will create) to ONE
     core: the harness/server-thread baton hand-off is 5x slower and very
@@ -130,7 +137,12 @@ def _pin_worker():
         cpus = sorted(os.sched_getaffinity(0))
         ident = multiprocessing.current_process()._identity
         idx = (ident[0] - 1) if ident else 0
-        os.sched_setaffinity(0, {cpus[idx % len(cpus)]})
+        # several checks running side by side (seed sweeps, mutation runs) should not all pile up on the first cores
+        try:
+            base = int(os.environ["VERIF_CPU_BASE"])
+        except (KeyError, ValueError):
+            base = (os.getppid() * 5) % len(cpus) if _jobs_limited() else 0
+        os.sched_setaffinity(0, {cpus[(base + idx) % len(cpus)]})
     except Exception:
         pass
 
